@@ -132,4 +132,11 @@ theorem cleanCollinear_provenance (P : Point64 → Prop) (hP : ClosedUnderIp P) 
     (∀ r, main = some r → ∀ q ∈ r, P q) ∧ (∀ t ∈ news, ∀ q ∈ t, P q) := by
   exact Proofs.BuildPaths.cleanCollinear_provenance P hP preserve ring h main news hr
 
+/-- the syntactic half of "canonical" for the whole pipeline: no emitted path has two equal consecutive
+    vertices, whatever the records looked like and whatever the repair did to them -/
+theorem buildPaths_no_adjacent_duplicates (preserve reverse : Bool) (recs : List (List Point64))
+    (out : List (List Point64)) (ho : buildPaths preserve reverse recs = some out) :
+    ∀ p ∈ out, ∀ i, i + 1 < p.length → p[i]! ≠ p[i + 1]! := by
+  exact Proofs.BuildPaths.buildPaths_no_adjacent_duplicates preserve reverse recs out ho
+
 end C02
